@@ -97,6 +97,12 @@ def getNats (j : Json) (k : String) : Except String (List Nat) := do
 def getStrs (j : Json) (k : String) : Except String (List String) := do
   (← (← j.getObjVal? k).getArr?).toList.mapM (·.getStr?)
 
+/-- the hypotheses of the theorems, evaluated on a snapshot (`rank` = proposed depth function) -/
+def checksJson (h : Heap) (req : Json) : Json :=
+  match getNats req "rank" with
+  | .ok d => Json.mkObj [("wf", wfCheck h), ("tree", treeCheck h), ("rank", rankCheck h d), ("noscope", noScopeCheck h)]
+  | .error _ => Json.null
+
 def handleGraph (req : Json) : Except String Json := do
   let op ← req.getObjValAs? String "op"
   let h ← parseHeap (← req.getObjVal? "heap")
@@ -105,10 +111,10 @@ def handleGraph (req : Json) : Except String Json := do
   | "graph.deepcopy" => do
     let x ← req.getObjValAs? Nat "x"
     match deepcopy cfg h x with
-    | none => pure (Json.mkObj [("ok", true), ("result", Json.null)])
+    | none => pure (Json.mkObj [("ok", true), ("result", Json.null), ("checks", checksJson h req)])
     | some (h', y) =>
       pure (Json.mkObj [("ok", true), ("result", shapeJson h' h.length y), ("written", natsJson (writtenOld h h')),
-                        ("oldhooks", oldHooks h' h.length)])
+                        ("oldhooks", oldHooks h' h.length), ("checks", checksJson h req)])
   | "graph.findclass" => do
     let root ← req.getObjValAs? Nat "root"
     let path ← getStrs req "path"
@@ -129,7 +135,7 @@ def handleGraph (req : Json) : Except String Json := do
     | none => pure (Json.mkObj [("ok", true), ("result", Json.null)])
     | some h' =>
       pure (Json.mkObj [("ok", true), ("result", Json.str "done"), ("written", natsJson (writtenOld h h')),
-                        ("fresh", Json.num (h'.length - h.length))])
+                        ("fresh", Json.num (h'.length - h.length)), ("checks", checksJson h req)])
   | o => throw s!"unknown-op {o}"
 
 end PymocaVerif.ObjGraph
